@@ -41,6 +41,28 @@ theorem NoEmptyLL_snoc (its : List (List DBlock)) (it : List DBlock) :
   | nil => simp [NoEmptyLL]
   | cons x xs ih => simp [NoEmptyLL, ih, and_assoc]
 
+theorem appendToItem_noEmpty (i : Inline) (pos : LineRange) :
+    ∀ it : List DBlock, NoEmptyL it → NoEmptyL (appendToItem it i pos)
+  | [], _ => by simp [appendToItem, NoEmptyL, NoEmpty]
+  | [b], h => by
+    cases b <;> simp_all [appendToItem, NoEmptyL, NoEmpty]
+  | b :: b2 :: rest, h => by
+    simp only [NoEmptyL] at h
+    have := appendToItem_noEmpty i pos (b2 :: rest) (by simpa [NoEmptyL] using h.2)
+    simp [appendToItem, NoEmptyL, h.1, this]
+
+theorem appendToItems_ok (i : Inline) (pos : LineRange) :
+    ∀ its : List (List DBlock), NoEmptyLL its → its ≠ [] →
+      ∃ its', appendToItems its i pos = .ok its' ∧ NoEmptyLL its' ∧ its' ≠ []
+  | [], _, hne => absurd rfl hne
+  | [it], h, _ => by
+    have h2 := appendToItem_noEmpty i pos it (by simpa [NoEmptyLL] using h)
+    exact ⟨[appendToItem it i pos], by simp [appendToItems], by simpa [NoEmptyLL] using h2, by simp⟩
+  | it :: it2 :: rest, h, _ => by
+    simp only [NoEmptyLL] at h
+    have ⟨its', h1, h2, _⟩ := appendToItems_ok i pos (it2 :: rest) (by simpa [NoEmptyLL] using h.2) (by simp)
+    exact ⟨it :: its', by simp [appendToItems, h1], by simp [NoEmptyLL, h.1, h2], by simp⟩
+
 mutual
 theorem appendInline_ok (i : Inline) (pos : LineRange) :
     ∀ b : DBlock, NoEmpty b → ∃ b', appendInline b i pos = .ok b' ∧ NoEmpty b'
@@ -77,17 +99,6 @@ theorem appendToBlocks_ok (i : Inline) (pos : LineRange) :
     simp only [NoEmptyL] at h
     have ⟨bs', h1, h2⟩ := appendToBlocks_ok i pos (b2 :: rest) (by simpa [NoEmptyL] using h.2)
     exact ⟨b :: bs', by simp [appendToBlocks, h1], by simp [NoEmptyL, h.1, h2]⟩
-theorem appendToItems_ok (i : Inline) (pos : LineRange) :
-    ∀ its : List (List DBlock), NoEmptyLL its → its ≠ [] →
-      ∃ its', appendToItems its i pos = .ok its' ∧ NoEmptyLL its' ∧ its' ≠ []
-  | [], _, hne => absurd rfl hne
-  | [it], h, _ => by
-    have ⟨it', h1, h2⟩ := appendToBlocks_ok i pos it (by simpa [NoEmptyLL] using h)
-    exact ⟨[it'], by simp [appendToItems, h1], by simpa [NoEmptyLL] using h2, by simp⟩
-  | it :: it2 :: rest, h, _ => by
-    simp only [NoEmptyLL] at h
-    have ⟨its', h1, h2, _⟩ := appendToItems_ok i pos (it2 :: rest) (by simpa [NoEmptyLL] using h.2) (by simp)
-    exact ⟨it :: its', by simp [appendToItems, h1], by simp [NoEmptyLL, h.1, h2], by simp⟩
 end
 
 /-! ### small steps of the reader on finished / open blocks -/
